@@ -3,6 +3,7 @@ package p17
 
 import (
 	"fmt"
+	"os"
 	"strings"
 	"testing"
 
@@ -200,6 +201,9 @@ func largeProgram(kind string, n int) string {
 			sb.WriteString("    x = x + i\n")
 		}
 		sb.WriteString("end\nx = x\n")
+	case "size-if", "size-if-else", "size-while", "size-for", "size-plain":
+		// a program whose instruction stream is exactly n bytes long (if n can be reached), ending in the given statement
+		return sizedProgram(strings.TrimPrefix(kind, "size-"), n)
 	case "big-literal": // an array literal with more elements than a 16-bit operand
 		sb.WriteString("x := [")
 		for i := 0; i < n; i++ {
@@ -208,6 +212,44 @@ func largeProgram(kind string, n int) string {
 		sb.WriteString("]\nx = x\n")
 	}
 	return sb.String()
+}
+
+var sizeTails = map[string]string{
+	"plain":   "x = x\n",
+	"if":      "if x < 0\n    x = 5\nend\n",
+	"if-else": "if x < 0\n    x = 5\nelse\n    x = 6\nend\n",
+	"while":   "while x < 0\n    x = x + 1\nend\n",
+	"for":     "for i := range 2\n    x = x + i\nend\n",
+}
+
+func instrLen(src string) int {
+	prog, errs, crash := rec.SafeParse(src)
+	if crash != nil || errs != nil {
+		return -1
+	}
+	c := bytecode.NewCompiler()
+	if err := c.Compile(prog); err != nil {
+		return -1
+	}
+	return len(c.Bytecode().Instructions)
+}
+
+// sizedProgram pads `x := 0` with two kinds of filler statements of different (measured)
+// instruction sizes so that the program with the given tail compiles to exactly n bytes.
+func sizedProgram(tail string, n int) string {
+	head, f1, f2 := "x := 0\n", "x = 1\n", "x = -x\n"
+	base := instrLen(head + sizeTails[tail])
+	s1 := instrLen(head+f1+sizeTails[tail]) - base
+	s2 := instrLen(head+f2+sizeTails[tail]) - base
+	if base < 0 || s1 <= 0 || s2 <= 0 {
+		return ""
+	}
+	for b := 0; b < s1; b++ {
+		if rest := n - base - b*s2; rest >= 0 && rest%s1 == 0 {
+			return head + strings.Repeat(f1, rest/s1) + strings.Repeat(f2, b) + sizeTails[tail]
+		}
+	}
+	return ""
 }
 
 func checkCase(c Case) (*h.Failure, string) {
@@ -225,11 +267,17 @@ func checkCase(c Case) (*h.Failure, string) {
 		}
 		return &h.Failure{Kind: kind, Detail: detail, Src: shown, Case: c, Callsite: callsite}
 	}
+	if src == "" {
+		return nil, "size-not-reachable"
+	}
 	prog, errs, crash := rec.SafeParse(src)
 	if crash != nil || errs != nil {
 		return nil, "not-accepted"
 	}
 	steps := -1
+	if strings.HasPrefix(c.Large, "size-") {
+		steps = 12000 // about one evaluation step per filler statement
+	}
 	if c.Large == "" {
 		_, _, res := bcx.EvalGlobals(prog)
 		if res.FuelOut || res.TooMuch || res.Yields > 20000 {
@@ -254,6 +302,13 @@ func checkCase(c Case) (*h.Failure, string) {
 	}
 	if vm.Panic != "" {
 		return mk("vm-gopanic", "executing the compiled program crashed the host: "+vm.Panic, rec.TopFrame(vm.Stack)), "vm-panic"
+	}
+	if strings.HasPrefix(c.Large, "size-") && vm.RunErr == nil {
+		if ev, out, _ := bcx.EvalGlobals(prog); out.Class == "ok" {
+			if d := bcx.DiffGlobals(ev, vm.Globals); d != "" {
+				return mk("size-boundary-result", fmt.Sprintf("a program of %d instruction bytes runs to another result on the VM: %s", len(vm.BC.Instructions), d), ""), "differs"
+			}
+		}
 	}
 	if vm.RunErr == nil && vm.SP != vm.BC.LocalCount {
 		return mk("stack-not-empty", fmt.Sprintf("after a normal run the stack pointer is %d, expected LocalCount = %d", vm.SP, vm.BC.LocalCount), ""), "sp"
@@ -305,6 +360,31 @@ func TestLarge(t *testing.T) {
 		ctx.Rec.Case(k.n > 60000 || k.kind == "long-jump" && k.n >= 8000, fmt.Sprintf("%s:%d", k.kind, k.n), "large:"+k.kind, "result:"+class)
 		ctx.Rec.Sample(map[string]any{"large": k.kind, "n": k.n, "result": class})
 		ctx.Report(t, fl)
+	}
+}
+
+// TestSizes sweeps the length of the instruction stream across the 16-bit boundary, for every
+// kind of final statement (the forward jumps of a final if / while / for are patched to the
+// end of the program): each program is either refused as too large or compiles to well-formed
+// code that computes what the evaluator computes.
+func TestSizes(t *testing.T) {
+	if h.ReplayPath() != "" {
+		t.Skip("replay run")
+	}
+	ctx := h.Setup(t, "C17")
+	shard, nshards := 0, 1
+	fmt.Sscanf(os.Getenv("VERIF_SHARD"), "%d/%d", &shard, &nshards)
+	i := 0
+	for n := 65520; n <= 65550; n++ {
+		for _, tail := range []string{"plain", "if", "if-else", "while", "for"} {
+			i++
+			if i%nshards != shard {
+				continue
+			}
+			fl, class := checkCase(Case{Large: "size-" + tail, N: n})
+			ctx.Rec.Case(class != "size-not-reachable", fmt.Sprintf("size-%s:%d", tail, n), "large:size-"+tail, "result:"+class)
+			ctx.Report(t, fl)
+		}
 	}
 }
 
